@@ -81,6 +81,7 @@ type vRead struct {
 }
 
 type vConn struct {
+	autoOK bool // drain stage: writes that begin from now on succeed at once
 	log    *vLog
 	mu     sync.Mutex
 	rd     chan vRead
@@ -170,9 +171,9 @@ func (c *vConn) Write(ctx context.Context, msg jsonrpc.Message) error {
 	case <-c.closed:
 		outcome = "broken"
 	default:
-		if c.gated {
+		if c.gated && !c.autoOK {
 			c.pending = append(c.pending, w)
-		} else if f, ok := c.faults[w.n]; ok {
+		} else if f, ok := c.faults[w.n]; ok && !c.autoOK {
 			outcome = f
 		} else {
 			outcome = "ok"
@@ -378,6 +379,7 @@ type vRun struct {
 	mu    sync.Mutex
 	calls map[string]*vCallState
 	rel   map[string]chan struct{} // handler release gates by request tag
+	relAll bool                    // drain stage: gates created from now on are open
 	holdFn   string
 	holdNth  int
 	holdSeen int
@@ -399,6 +401,11 @@ func (r *vRun) gate(tag string) chan struct{} {
 	if !ok {
 		ch = make(chan struct{})
 		r.rel[tag] = ch
+		if r.relAll {
+			// the drain stage has begun: every handler is allowed to return, also one that starts only now
+			// (e.g. after a stalled write has timed out)
+			close(ch)
+		}
 	}
 	return ch
 }
@@ -737,6 +744,21 @@ func (r *vRun) step(st []any) {
 			r.log.emit("rd.deliver", "kind", "notif", "id", "", "r", tag, "dup", false)
 		}
 		r.conn.rd <- vRead{msg: msg, desc: []any{"kind", kind, "k", "", "r", tag}}
+	case "listen":
+		// server side: a subscriptions/listen call as a legacy peer may send it (no _meta). The SDK's own handler parks
+		// until the request is cancelled; ServerSession.Close has to cancel it. Not a scripted handler: no h.* lines.
+		if r.ss == nil {
+			applied = false
+			break
+		}
+		r.mu.Lock()
+		r.nextReq++
+		wid := 880000 + r.nextReq
+		r.mu.Unlock()
+		id, _ := jsonrpc2.MakeID(float64(wid))
+		r.log.emit("rd.deliver", "kind", "listen", "id", fmt.Sprint(wid), "r", arg(1), "dup", false)
+		r.conn.rd <- vRead{msg: &jsonrpc.Request{ID: id, Method: "subscriptions/listen", Params: json.RawMessage(
+			`{"notifications":{"toolsListChanged":true}}`)}, desc: []any{"kind", "listen", "k", "", "r", arg(1)}}
 	case "init":
 		if r.ss == nil {
 			applied = false
@@ -959,6 +981,12 @@ func (r *vRun) run() {
 	r.settle(false)
 	// drain stage 1: discharge what the environment owes, nothing else
 	r.log.emit("drain1")
+	r.mu.Lock()
+	r.relAll = true
+	r.mu.Unlock()
+	r.conn.mu.Lock()
+	r.conn.autoOK = true
+	r.conn.mu.Unlock()
 	for i := 0; i < 50; i++ {
 		progressed := false
 		for {
@@ -1040,7 +1068,8 @@ func (r *vRun) run() {
 }
 
 func vRunScenario(t *testing.T, l *vLog, sc *vScenario) {
-	l.emit("reset", "trace", sc.ID, "side", sc.Side, "gated", sc.Gated, "cs", sc.CS, "csseed", sc.CSSeed)
+	scj, _ := json.Marshal(sc) // the complete scenario (also for generated ones), so that a failing trace can be replayed exactly
+	l.emit("reset", "trace", sc.ID, "side", sc.Side, "gated", sc.Gated, "cs", sc.CS, "csseed", sc.CSSeed, "scj", string(scj))
 	defer func() {
 		if p := recover(); p != nil {
 			l.emit("panic", "msg", fmt.Sprint(p))
@@ -1084,7 +1113,13 @@ func vRandomScenario(rnd *rand.Rand, i int) *vScenario {
 	calls, creqs, notifs, dups, closes, waits := 0, 0, 0, 0, 0, 0
 	var liveCalls, liveCallReqs, liveReqs []string
 	cancelled := map[string]bool{}
+	listens := 0
 	for len(sc.Steps) < n {
+		if sc.Side == "server" && listens < 2 && rnd.IntN(16) == 0 {
+			listens++
+			sc.Steps = append(sc.Steps, []any{"listen", fmt.Sprintf("L%d", listens)})
+			continue
+		}
 		switch k := rnd.IntN(26); {
 		case k < 4 && calls < 3:
 			calls++
